@@ -70,10 +70,50 @@ def cvc5_check(smt2, timeout_ms):
             pass
 
 
+def abstract_uf(fmls):
+    """replace every application of a unary uninterpreted real function (exp, log) by a fresh real variable.
+    Sound for UNSAT answers only (congruence between syntactically different but equal arguments is lost,
+    which can only make the abstraction easier to satisfy)."""
+    table = {}
+
+    def walk(t, memo):
+        k = t.get_id()
+        if k in memo:
+            return memo[k]
+        if z3.is_app(t) and t.num_args() > 0:
+            ch = [walk(c, memo) for c in t.children()]
+            if t.decl().kind() == z3.Z3_OP_UNINTERPRETED:
+                key = (t.decl().name(), ch[0].get_id()) if len(ch) == 1 else None
+                if key is None:
+                    raise ValueError('n-ary UF')
+                if key not in table:
+                    table[key] = z3.Real(f'uf!{t.decl().name()}!{len(table)}')
+                r = table[key]
+            else:
+                r = t.decl()(*ch)
+        else:
+            r = t
+        memo[k] = r
+        return r
+    memo = {}
+    return [walk(z3.simplify(f), memo) for f in fmls]
+
+
 def check_sat(fmls, timeout_ms=10000, want_model=True, use_cvc5=True):
     """decide satisfiability of the conjunction `fmls`.
     returns (status in {'unsat','sat','unknown'}, model dict or None, seconds, backend)"""
     t0 = time.time()
+    if _has_uf(fmls) and not any(z3.is_quantifier(f) for f in fmls):
+        try:
+            ab = abstract_uf(fmls)
+            t = z3.TryFor(z3.Then('simplify', 'purify-arith', 'propagate-values', 'solve-eqs', 'qfnra-nlsat'),
+                          int(timeout_ms) // 2)
+            s2 = t.solver()
+            s2.add(*ab)
+            if s2.check() == z3.unsat:
+                return 'unsat', None, time.time() - t0, 'z3-nlsat(uf-abstracted)'
+        except (z3.Z3Exception, ValueError):
+            pass
     so = z3.Solver()
     so.add(*fmls)
     if os.environ.get('VERIF_NLSAT_FIRST', '1') == '1' and not _has_uf(fmls):
